@@ -195,7 +195,15 @@ pub fn probe(name: &str) {
 }
 
 pub fn log(line: String) {
-    state().log(line)
+    state().log(format!("{}{line}", thread_tag()))
+}
+
+/// "T<n> " on a simulated thread of the cooperative scheduler.
+pub fn thread_tag() -> String {
+    match sched::my_id() {
+        Some(id) => format!("T{id} "),
+        None => String::new(),
+    }
 }
 
 //------------ Normalisation -------------------------------------------------
@@ -323,7 +331,7 @@ impl Hooks for SimHooks {
                     Verdict::Fail(_) => " FAIL",
                     Verdict::Crash => " CRASH",
                 };
-                st.trace.push(format!("{desc}{tag}"));
+                st.trace.push(format!("{}{desc}{tag}", thread_tag()));
             }
             verdict
         };
@@ -364,7 +372,7 @@ impl Hooks for SimHooks {
                     Verdict::Fail(_) => " FAIL",
                     Verdict::Crash => " CRASH",
                 };
-                st.trace.push(format!("{desc}{tag}"));
+                st.trace.push(format!("{}{desc}{tag}", thread_tag()));
             }
             (verdict, st.fs_observer.clone())
         };
